@@ -417,7 +417,8 @@ def carrier(t, rng, cap, depth=0):
     k = t[0]
     if k == "int":
         lo, hi = INTS[t[1]]
-        vals = [x for x in ([-2, -1, 0, 1, 2] if lo < 0 else [0, 1, 2, 3]) if lo <= x <= hi]
+        rich = cap >= 100
+        vals = [x for x in (([-3, -2, -1, 0, 1, 2, 3] if rich else [-2, -1, 0, 1, 2]) if lo < 0 else ([0, 1, 2, 3, 4] if rich else [0, 1, 2, 3])) if lo <= x <= hi]
         return ([lo] + vals + [hi]) if depth == 0 else vals
     if k == "bool":
         return [False, True]
@@ -456,10 +457,10 @@ def carrier(t, rng, cap, depth=0):
                 out.append(v)
         return out
     if k == "set":
-        u = list(range(4 if (depth == 0 and cap >= 100) else (3 if depth == 0 else 2)))
+        u = list(range((4 if depth == 0 else 3) if cap >= 100 else (3 if depth == 0 else 2)))
         return [tuple(s) for n in range(len(u) + 1) for s in itertools.combinations(u, n)]
     if k == "bset":
-        u = list(range(4 if (depth == 0 and cap >= 100) else (3 if depth == 0 else 2)))
+        u = list(range((4 if depth == 0 else 3) if cap >= 100 else (3 if depth == 0 else 2)))
         return [("B", tuple(s)) for n in range(min(len(u), t[1]) + 1) for s in itertools.combinations(u, n)] + ["T"]
     if k == "cp":
         return ["bot"] + [("c", v) for v in carrier(t[1], rng, cap - 2, depth)] + ["top"]
@@ -468,8 +469,8 @@ def carrier(t, rng, cap, depth=0):
 
 def gen_cases(tier, seed):
     rng = lib.rng_for(seed, PROP)
-    cap = 32 if tier == "quick" else 130
-    tcap = 5 if tier == "quick" else 13
+    cap = 32 if tier == "quick" else 420
+    tcap = 5 if tier == "quick" else 12
     cases = []
     for tag, t in TYPES.items():
         vals = carrier(t, rng, cap)
@@ -713,7 +714,7 @@ def tie(tier, seed, replay):
     npairs = sum(len(v) for v in pairs.values())
     some = [v for tag in ("dual_opt_prod", "bset2", "prod11") for v in list(pairs.get(tag, {}).values())[7:8]]
     return dict(evaluations=npairs + len(triples) + len(tags), distinct_nontrivial=len(seen),
-                rule="pair rows: every ordered pair over the per-type carrier (exhaustive over small component carriers: ints MIN,-2..2,MAX at top level, -2..2 nested; sets over {0,1,2} (top level) / {0,1} (nested); all Option / ConstPropagation / BoundedSet shapes; sampled with neighbours + bottom/top when the product exceeds the cap); triple rows: all triples over a random sub-carrier; non-trivial = the arguments are pairwise distinct; distinct = distinct (type, arguments)",
+                rule="pair rows: every ordered pair over the per-type carrier (exhaustive over small component carriers: ints MIN,-2..2,MAX at top level, -2..2 nested (thorough: -3..3); sets over {0,1,2} (top level) / {0,1} (nested) (thorough: {0..3} / {0,1,2}); all Option / ConstPropagation / BoundedSet shapes; sampled with neighbours + bottom/top when the product exceeds the cap); triple rows: all triples over a random sub-carrier; non-trivial = the arguments are pairwise distinct; distinct = distinct (type, arguments)",
                 samples=[dict(case=c, impl=r, model=model[(c["tag"], (dec_all(TYPES[c["tag"]], c["a"]), dec_all(TYPES[c["tag"]], c["b"])))]) for c, r in some],
                 distribution=dict(rows_by_type=dist, types={tag: rust_name(t) for tag, t in TYPES.items()}, pair_rows=npairs, triple_rows=len(triples), static_rows=len(tags)),
                 mismatches=mism,
